@@ -42,11 +42,12 @@ type Solver struct {
 	log       io.Writer
 	timeoutMs int
 	bin       string
+	logic     string
 	debugBodies map[int32]string
 }
 
-func NewSolver(bin string, timeoutMs int, logPath string) (*Solver, error) {
-	s := &Solver{bin: bin, timeoutMs: timeoutMs}
+func NewSolver(bin string, timeoutMs int, logPath string, logic string) (*Solver, error) {
+	s := &Solver{bin: bin, timeoutMs: timeoutMs, logic: logic}
 	if logPath != "" {
 		f, err := os.Create(logPath)
 		if err != nil {
@@ -93,6 +94,9 @@ func (s *Solver) start() error {
 		s.send("(set-option :print-success false)")
 		s.send(fmt.Sprintf("(set-option :timeout %d)", s.timeoutMs))
 		s.send("(set-option :model.completion true)")
+		if s.logic != "" {
+			s.send("(set-logic " + s.logic + ")")
+		}
 	} else {
 		s.send("(set-logic ALL)")
 	}
@@ -168,6 +172,9 @@ func (s *Solver) ref(t *Term) string {
 		if s.debugBodies[t.id] != body {
 			panic(fmt.Sprintf("stale definition t%d: solver has %q, run has %q (level %d, defined at %d)", t.id, s.debugBodies[t.id], body, s.level, s.defAt[t.id]))
 		}
+	}
+	if s.logic == "QF_BV" && (t.op == OUF || t.op >= OFAdd && t.op <= OFToBits) {
+		panic(engineAbort{"unsupported", "floating-point or uninterpreted term sent to a solver started with logic QF_BV: set \"logic\": \"ALL\" for this harness"})
 	}
 	if _, ok := s.defAt[t.id]; !ok {
 		if t.op == OUF {
